@@ -14,6 +14,7 @@ FIRST_MISSED = {
     "C04-w4-1", "C04-w4-2", "C05-w4-1", "C05-w4-2", "C08-w4-1", "C08-w4-2", "C09-w4-1", "C09-w4-2", "C10-w4-1", "C10-w4-2",
     "C11-w4-1", "C11-w4-2", "C15-w4-2", "C20-w4-1",
     "C06-w5-1", "C06-w5-2", "C09-w5-1", "C09-w5-2", "C10-w5-1", "C10-w5-2", "C11-w5-1", "C15-w5-1", "C20-w5-2",
+    "C04-w6-2", "C05-w6-2", "C08-w6-2", "C09-w6-2", "C10-w6-1", "C10-w6-2", "C15-w6-1", "C15-w6-2", "C20-w6-1", "C20-w6-2",
 }
 
 WHAT = {
@@ -119,6 +120,24 @@ WHAT = {
     "C15-w5-2": ":max below the default no longer caps",
     "C20-w5-1": "loading-file context taken from the root environment's current location instead of the call's frame",
     "C20-w5-2": "containment helper accepts a path that is a proper prefix of the root",
+    "C04-w6-1": "context polled only on step 1 and every 64th step",
+    "C04-w6-2": "Terminal flag restored through a frame pointer cached before argument evaluation: stale once the frame storage grows, the tail call is not elided and the iteration count restarts",
+    "C05-w6-1": "call re-polls the context before a builtin and returns before the deferred restore of the environment's context",
+    "C05-w6-2": "builtin looked up before binding: a refused argument binding returns with the caller's context left on the environment",
+    "C06-w6-1": "handler-bind skips its bindings when the error is already being handled (rethrow from a handler-bind entered inside a handler)",
+    "C06-w6-2": "Go stack snapshot (the host-panic marker) taken only for the first panic recovered in a top-level evaluation",
+    "C08-w6-1": "new packages clone the language package's whole symbol table instead of importing its exports",
+    "C08-w6-2": "in-package validates its documentation arguments after registering the package but before importing the language package: a refused first mention leaves an empty package behind",
+    "C09-w6-1": "append 'list shares the first argument's backing array when nothing is appended: a later stable-sort sorts the program literal",
+    "C09-w6-2": "Package.Exports sorts its variadic argument in place: libschema's process-wide symbol table is written while other runtimes are being constructed (data race)",
+    "C10-w6-1": "help:help prints a native variable's Go value with %v (heap addresses)",
+    "C10-w6-2": "function id of the lisp:typedef constructor drawn from a process-wide counter: error messages depend on how many runtimes the process created",
+    "C11-w6-1": "slice does not clamp the capacity of a view that ends at the source's end",
+    "C11-w6-2": "assoc returns its argument when the key already holds the identical value",
+    "C15-w6-1": "no-:max cap resolved once by WithMaxSleep: a ceiling assigned to Runtime.MaxSleep afterwards is ignored without :max",
+    "C15-w6-2": "handlers for context-cancelled run under context.WithoutCancel: a sleep inside sees neither deadline nor cancellation",
+    "C20-w6-1": "resolved paths made absolute with filepath.Abs ($PWD spelling) instead of the resolved working directory",
+    "C20-w6-2": "FSLibrary reports the requested string instead of the in-FS path as true location: nested loads resolve against the wrong directory",
 }
 
 
